@@ -73,6 +73,10 @@ def keyhash(key):
     return h
 
 
+def entry_code(kh, c):
+    return ((kh * 1000003) % P * 31 + c * 37 + 11) % P
+
+
 def abs_code(t):
     """the scalar code of an abstract entry seen as an argument of fn (first element for tensors)"""
     if t is None:
@@ -81,10 +85,10 @@ def abs_code(t):
         return t[1] * 64
     if t[0] == "T":
         return 11 + 13 * t[2]
+    # order-independent (a dense stack / unbind may re-order the keys of a node that is handed to fn as an argument)
     h = 17
     for k, c in t[3]:
-        h = (h * 31 + keyhash(k)) % P
-        h = (h * 37 + abs_code(c)) % P
+        h = (h + entry_code(keyhash(k), abs_code(c))) % P
     return h
 
 
@@ -101,11 +105,10 @@ def real_code(x):
     if is_tensor_collection(x):
         h = 17
         for k, v in x.items():
-            h = (h * 31 + keyhash(k)) % P
             c = real_code(v)
             if isinstance(c, torch.Tensor):
                 c = int(c.reshape(-1)[0])
-            h = (h * 37 + c) % P
+            h = (h + entry_code(keyhash(k), c)) % P
         return h
     raise TypeError(f"fn received {type(x).__name__}")
 
